@@ -164,6 +164,23 @@ async fn verif_replay_hist_lifecycle() {
             } else { bad.push("REPLAY-FAIL [F] setup: act f2 did not open".to_string()); }
         } else { bad.push("REPLAY-FAIL [F] setup: act f1 did not open".to_string()); }
     }
+    // ---- scenario G (C03: exactly one terminal event): abort a1 ends the process as aborted; the act a2 of the sibling branch is still open beneath it --
+    //      a second abort aimed at a2, whether it is accepted or refused, must not end the process a second time or move a task that has ended
+    {
+        let (engine, proc, id, tids, _sig) = verif_two_branch_proc("verif_g").await;
+        let (a1, a2) = { let t = tids.lock().unwrap(); (t.get("a1").cloned().unwrap(), t.get("a2").cloned().unwrap()) };
+        let ends = Arc::new(Mutex::new(Vec::<String>::new()));
+        let (e1, e2) = (ends.clone(), ends.clone());
+        engine.channel().on_complete(move |e| e1.lock().unwrap().push(format!("complete:{}", e.inner().state)));
+        engine.channel().on_error(move |e| e2.lock().unwrap().push(format!("error:{}", e.inner().state)));
+        let _ = engine.executor().act().abort(&id, &a1, &Vars::new()); wait().await;
+        let s1 = verif_snapshot(&proc);
+        let n1 = ends.lock().unwrap().len();
+        let _ = engine.executor().act().abort(&id, &a2, &Vars::new()); wait().await;
+        let s2 = verif_snapshot(&proc); verif_compare(&mut bad, "G", "second abort (a2) under an aborted process", &s1, &s2);
+        let evs = ends.lock().unwrap().clone();
+        if n1 != 1 || evs.len() != 1 { bad.push(format!("REPLAY-FAIL [G] terminal process events after abort(a1): {n1}, after the second abort(a2): {} {evs:?}; exactly one expected", evs.len())); }
+    }
     for b in bad.iter() { println!("{b}"); }
     assert!(bad.is_empty(), "{} lifecycle violation(s)", bad.len());
 }
